@@ -20,6 +20,7 @@
 #include "tcp_connector.h"
 
 #include <sys/un.h>
+#include <memory>
 
 #include <tbox/base/log.h>
 #include <tbox/base/assert.h>
@@ -111,6 +112,20 @@ void TcpConnector::cleanup()
         return;
 
     stop();
+
+    //! cleanup() may be called from one of these callbacks: it has to stay alive until it has returned
+    if (cb_level_ > 0) {
+        struct Keep {
+            ConnectedCallback   connected_cb;
+            ConnectFailCallback connect_fail_cb;
+            ReconnectDelayCalc  reconn_delay_calc_func;
+        };
+        auto keep = std::make_shared<Keep>();
+        keep->connected_cb.swap(connected_cb_);
+        keep->connect_fail_cb.swap(connect_fail_cb_);
+        keep->reconn_delay_calc_func.swap(reconn_delay_calc_func_);
+        wp_loop_->runNext([keep] { }, "TcpConnector::cleanup, release callbacks");
+    }
 
     connected_cb_ = nullptr;
     connect_fail_cb_ = nullptr;
